@@ -1,6 +1,12 @@
 Require Extraction.
 Require Import ExtrOcamlBasic.
-From Zix Require Import CopySpec CopyModel FsSpec FsModel.
+From Zix Require Import CopySpec CopyModel FsSpec FsModel FsLinkSpec FsLinkModel.
 Separate Extraction FsModel.create_directories FsModel.file_equals FsModel.file_type_of FsModel.file_size_of
   FsModel.e_trace FsModel.e_open FsSpec.mkdirs_spec FsSpec.names_directoryb FsSpec.type_of_mode_spec
-  FsModel.list_eqb.
+  FsModel.list_eqb
+  FsLinkModel.create_directories_l FsLinkModel.file_type_l FsLinkModel.symlink_type_l FsLinkModel.file_size_l
+  FsLinkModel.dir_for_each FsLinkModel.d_init FsLinkModel.d_open FsLinkModel.d_calls FsLinkModel.d_log
+  FsLinkModel.opendir_l FsLinkModel.fd_balance FsLinkModel.sys_of_fsev FsLinkModel.sys_of_dcall
+  FsLinkSpec.stat_l FsLinkSpec.lstat_l FsLinkSpec.names_directory_lb FsLinkSpec.lmkdirs_spec
+  FsLinkSpec.kind_of_res FsLinkSpec.fmt_of_node FsLinkSpec.children
+  FsLinkModel.file_type_calls FsLinkModel.symlink_type_calls FsLinkModel.file_size_calls.
